@@ -238,44 +238,7 @@ def run(ctx):
     if readers < 3:
         raise AnalysisBroken("only %d high-half readers found in orcexecutor.c" % readers)
 
-    # ---- D1b: the executor a wrapper hands to the code is completely filled in -------------------
-    # The wrapper's OrcExecutor is an uninitialised local.  JIT code takes a constant n/m as an immediate, but emulation
-    # (ORC_CODE=emulate, no executable memory, failed compile without backup) reads ex->n and ORC_EXECUTOR_M(ex): on every
-    # path of the emitter to the `func (ex);` line the stores of n, and of m for 2-D programs, must have been emitted.
-    import re as _re
-    from flow import path_to, atom as _atom
-    oce = tu.fn["output_code_execute"]
-    rep.saw(oce)
-
-    def emits(rx):
-        def pred(e):
-            if e.k != "CallExpr" or e.name != "fprintf":
-                return False
-            a = e.args()
-            lit = strip_casts(a[1]) if len(a) > 1 else None
-            return lit is not None and lit.k == "StringLiteral" and _re.search(rx, lit.get("str", "")) is not None
-        return pred
-    calls = [c for c in oce.calls("fprintf") if emits(r"\bfunc \(ex\);")(c)]
-    if len(calls) != 1:
-        raise AnalysisBroken("output_code_execute: expected one `func (ex);` emission, found %d" % len(calls))
-    P = oce.params[0]["name"]
-
-    def only_2d(b, idx):
-        blk = oce.blocks[b]
-        if blk.cond is None:
-            return True
-        n_, pol = _atom(blk.cond, True)
-        if n_ is not None and access_path(n_) == "%s->is_2d" % P:
-            ek = oce.edge_kind(b, idx)
-            return ek is None or (ek == pol)
-        return True
-    w = path_to(oce, calls[0], emits(r"ex->n = "))
-    rep.check(w is None, "D1-EMITTERS", where(oce), "executor:n", "ex->n is stored on every path to the call",
-              "orcc can emit a wrapper that calls the code without having stored ex->n (emulation and the region loops read it)")
-    w = path_to(oce, calls[0], emits(r"(ORC_EXECUTOR_M ?\(ex\)|ex->params\[ORC_VAR_A1\]) = "), only_2d)
-    rep.check(w is None, "D1-EMITTERS", where(oce), "executor:m", "for 2-D programs the row count is stored on every path to the call",
-              "orcc can emit a wrapper for a 2-D program that never stores ORC_EXECUTOR_M(ex) (path %s): orc_executor_emulate and the C "
-              "backup read the row count from the executor, so a constant .m works only as long as JIT code runs" % (w,))
+    wrapper_executor_fill(db, rep, "D1-EMITTERS")
 
     # ---- D1c: what the .orc source says about an array survives the rebuild inside the wrapper ----------
     # Generated wrappers rebuild the program at run time from bytecode (or, for old --compat levels, through the _full
@@ -300,6 +263,10 @@ def run(ctx):
     once_enter_value_guarded(db, rep, "D5-LAZY-INIT-VALUE")
 
     d6_acc_slot_width(db, rep)
+
+    # ---- D7: emulation starts every accumulator from zero, also through a wrapper's stack executor (shared with C02 D3)
+    import importlib as _il
+    _il.import_module("rules.c02").acc_zero(db, rep, "D7-EMULATE-ACC-ZERO")
 
     if ctx.tier == "thorough":
         d4(ctx, rep)
@@ -390,6 +357,48 @@ def d4(ctx, rep):
     rep.extra["generated_sources_checked"] = n
     if n < 100:
         raise AnalysisBroken("only %d generated sources were type-checked" % n)
+
+
+def wrapper_executor_fill(db, rep, rule):
+    # ---- D1b: the executor a wrapper hands to the code is completely filled in -------------------
+    # The wrapper's OrcExecutor is an uninitialised local.  JIT code takes a constant n/m as an immediate, but emulation
+    # (ORC_CODE=emulate, no executable memory, failed compile without backup) reads ex->n and ORC_EXECUTOR_M(ex): on every
+    # path of the emitter to the `func (ex);` line the stores of n, and of m for 2-D programs, must have been emitted.
+    import re as _re
+    from flow import path_to, atom as _atom
+    oce = db.tu("orcc").fn["output_code_execute"]
+    rep.saw(oce)
+
+    def emits(rx):
+        def pred(e):
+            if e.k != "CallExpr" or e.name != "fprintf":
+                return False
+            a = e.args()
+            lit = strip_casts(a[1]) if len(a) > 1 else None
+            return lit is not None and lit.k == "StringLiteral" and _re.search(rx, lit.get("str", "")) is not None
+        return pred
+    calls = [c for c in oce.calls("fprintf") if emits(r"\bfunc \(ex\);")(c)]
+    if len(calls) != 1:
+        raise AnalysisBroken("output_code_execute: expected one `func (ex);` emission, found %d" % len(calls))
+    P = oce.params[0]["name"]
+
+    def only_2d(b, idx):
+        blk = oce.blocks[b]
+        if blk.cond is None:
+            return True
+        n_, pol = _atom(blk.cond, True)
+        if n_ is not None and access_path(n_) == "%s->is_2d" % P:
+            ek = oce.edge_kind(b, idx)
+            return ek is None or (ek == pol)
+        return True
+    w = path_to(oce, calls[0], emits(r"ex->n = "))
+    rep.check(w is None, rule, where(oce), "executor:n", "ex->n is stored on every path to the call",
+              "orcc can emit a wrapper that calls the code without having stored ex->n (emulation and the region loops read it)")
+    w = path_to(oce, calls[0], emits(r"(ORC_EXECUTOR_M ?\(ex\)|ex->params\[ORC_VAR_A1\]) = "), only_2d)
+    rep.check(w is None, rule, where(oce), "executor:m", "for 2-D programs the row count is stored on every path to the call",
+              "orcc can emit a wrapper for a 2-D program that never stores ORC_EXECUTOR_M(ex) (path %s): orc_executor_emulate and the C "
+              "backup read the row count from the executor, so a constant .m works only as long as JIT code runs" % (w,))
+
 
 
 STORE_ROW_WIDTH = {"pextrb": 1, "pextrw": 2, "movd": 4, "pextrd": 4, "movq": 8, "pextrq": 8, "movdqa": 16, "movdqu": 16, "movntdq": 16, "movups": 16, "movaps": 16}
